@@ -503,7 +503,10 @@ class DatasetProcessor:
         self.all_read_groups = set()
         # alignment statistics (incl. the number of unaligned reads) are collected per experiment
         self.alignment_stat_counter = EnumStats()
-        if self.args.resume and os.path.exists(sample.read_group_file + "_lock"):
+        if self.args.read_assignments:
+            # saved read assignments carry their read groups, there are no alignment files to split the table by
+            pass
+        elif self.args.resume and os.path.exists(sample.read_group_file + "_lock"):
             logger.info("Read group table was split during the previous run, existing files will be used")
         else:
             fname = read_group_lock_filename(sample)
